@@ -3,6 +3,8 @@ mod c11;
 mod c15;
 mod c16;
 mod coq;
+mod corpus;
+mod faults;
 mod obs;
 mod reggen;
 mod regprint;
